@@ -1,13 +1,17 @@
 import Tahoe.Storage.CrashLemmas
 import Tahoe.Storage.ImmConnLemmas
 /-!
-C29 — share containers survive a server crash (immutable containers; property theorems only).
+C29 — share containers survive a server crash (immutable containers, plus the extra-lease append of
+mutable `add_lease`; property theorems only).
 Model: `Tahoe/Base/FsOp.lean` (primitive operations, crash = prefix), `Tahoe/Storage/Crash.lean`
 (each storage operation as its primitive operations in program order; restart = `_clean_incomplete`
-+ reopening).  All theorems quantify over every file-system state, every storage operation and
-every crash index `n` (`crashAt fs op n` = run the first `n` primitive operations, then restart).
-Limits: a single `write`/`rename` is atomic; durability (fsync) is not modelled; mutable containers
-are not covered here.
++ reopening; torn writes `tornOp` / `tornAt`).  All theorems quantify over every file-system state,
+every storage operation and every crash index `n` (`crashAt fs op n` = run the first `n` primitive
+operations, then restart; `tornAt fs op n j` = additionally the `n`-th write torn after `j` bytes).
+Limits: `rename`/`unlink`/`mkdir` are atomic (a write may be torn); durability (fsync) is not
+modelled; of the mutable containers only the `add_lease` extra-lease append is covered.  One open
+known finding (immutable `add_lease`: `lease_ops_preserve_data_counterexample`); the two `_partial`
+theorems are partial because of it.
 -/
 /-!
 ## Coverage of the statement (properties.jsonl C29)
